@@ -615,7 +615,7 @@ def items():
             Hole("let mut pairs = self.to_owned().into_pairs();", "let mut pairs = peekable(self.to_owned().into_pairs());", kind="wrapper", why="the iterator is read through the Peekable wrapper (an adapter that changes nothing about `next`), which has a sequence specification"),
             Hole("first_pair.map(|value| value.update_leading_trivia(leading));", "first_pair.map(|value: T| -> (vx_r: T) ensures value.ul_post(leading, &vx_r) { value.update_leading_trivia(leading) });", kind="rewrite", why="the closure gets a contract (its parameter gets its type)"),
             Hole("for pair in pairs {", "let ghost mut k: int = if ppairs(*self).len() > 0 { 1 } else { 0 };\n        while let Some(pair) = pairs.next() {", kind="desugar", why="for over an iterator: written as its definition"),
-            Hole("pair.punctuation().map(|x| x.to_owned()),", "owned_punctuation(pair.punctuation()),", kind="wrapper", why="Option::map with a closure that clones"),
+            Hole("pair.punctuation().map(|x| x.to_owned()),", "owned_punctuation(pair.punctuation()),", kind="wrapper", why="Option::map with a closure that clones", optional=True),
             Hole("pair.value().clone(),", "cloned_value(pair.value()),", kind="wrapper", why="Clone::clone of a generic item: a clone is equal to its original (class B: the Clone implementations of full_moon's nodes are derived)"),
             Loop("while let Some(pair) = pairs.next()", """
             invariant
